@@ -766,7 +766,7 @@ func TestVerifHarnessC03(t *testing.T) {
 				last := qs[o.bad]
 				fail(&c03Violation{Property: "C03", What: fmt.Sprintf("query #%d %s (group by %v) differs from the same query executed alone on a freshly opened index without cache (cache=%s capacity=%d preload=%v)",
 					o.bad, last.Expr.text(), last.GroupBy, cs.Config.Cache, cs.Config.Capacity, cs.Config.Preload),
-					Input: c03Case{Data: cs.Data, Config: cs.Config, Queries: qs},
+					Input:    c03Case{Data: cs.Data, Config: cs.Config, Queries: qs},
 					Expected: map[string]interface{}{"fresh_index_without_cache": o.exp, "row_by_row_reference": ds.rowwise(last)}, Got: o.got})
 			}
 		case <-time.After(60 * time.Second):
@@ -786,10 +786,10 @@ func TestVerifHarnessC03(t *testing.T) {
 	var mu sync.Mutex
 	var firstOrder = -1
 	var firstV struct {
-		job           c03Job
-		bad           int
-		exp, got      *c03Res
-		harnessErr    error
+		job        c03Job
+		bad        int
+		exp, got   *c03Res
+		harnessErr error
 	}
 	runJobs := func(jobs []c03Job) {
 		ch := make(chan c03Job, 256)
